@@ -136,3 +136,120 @@ package pointindex
 //@   mode real
 //@   prelude geom
 //@   ensures meetsAt(l, e, t) ==> meets(l, e)
+
+// ---------------------------------------------------------------------------------------------
+// Geometric lemmas about meets, each proved from its definition (mode real). They are what callers of the
+// pixel test know about it; inside findIntersectingQuadrants meets is opaque.
+//
+//@ lemma G_in0(l A2_A2_M, e A4_M)
+//@   mode real
+//@   prelude geom
+//@   requires e[0] <= l[0][0] && l[0][0] < e[2] && e[1] <= l[0][1] && l[0][1] < e[3]
+//@   use meets_def2(l, e, 0)
+//@   ensures meets(l, e)
+//@ lemma G_in1(l A2_A2_M, e A4_M)
+//@   mode real
+//@   prelude geom
+//@   requires e[0] <= l[1][0] && l[1][0] < e[2] && e[1] <= l[1][1] && l[1][1] < e[3]
+//@   use meets_def2(l, e, 1)
+//@   ensures meets(l, e)
+//@ lemma G_xlt(l A2_A2_M, e A4_M, c M)
+//@   mode real
+//@   prelude geom
+//@   requires l[0][0] < c && l[1][0] < c && c <= e[0]
+//@   use meets_def1(l, e)
+//@   ensures !meets(l, e)
+//@ lemma G_xge(l A2_A2_M, e A4_M, c M)
+//@   mode real
+//@   prelude geom
+//@   requires l[0][0] >= c && l[1][0] >= c && e[2] <= c
+//@   use meets_def1(l, e)
+//@   ensures !meets(l, e)
+//@ lemma G_ylt(l A2_A2_M, e A4_M, c M)
+//@   mode real
+//@   prelude geom
+//@   requires l[0][1] < c && l[1][1] < c && c <= e[1]
+//@   use meets_def1(l, e)
+//@   ensures !meets(l, e)
+//@ lemma G_yge(l A2_A2_M, e A4_M, c M)
+//@   mode real
+//@   prelude geom
+//@   requires l[0][1] >= c && l[1][1] >= c && e[3] <= c
+//@   use meets_def1(l, e)
+//@   ensures !meets(l, e)
+// A segment going from the bottom-left to the top-right infinite quadrant (or back) cannot meet both a box in the
+// bottom-right and a box in the top-left quadrant; likewise for the other diagonal.
+//@ lemma G_mutexDiag(l A2_A2_M, a A4_M, b A4_M, cx M, cy M)
+//@   mode real
+//@   prelude geom
+//@   requires (l[0][0] < cx && l[0][1] < cy && l[1][0] >= cx && l[1][1] >= cy) || (l[1][0] < cx && l[1][1] < cy && l[0][0] >= cx && l[0][1] >= cy)
+//@   requires a[0] >= cx && a[3] <= cy && b[2] <= cx && b[1] >= cy
+//@   use meets_def1(l, a)
+//@   use meets_def1(l, b)
+//@   ensures !(meets(l, a) && meets(l, b))
+//@ lemma G_mutexAnti(l A2_A2_M, a A4_M, b A4_M, cx M, cy M)
+//@   mode real
+//@   prelude geom
+//@   requires (l[0][0] >= cx && l[0][1] < cy && l[1][0] < cx && l[1][1] >= cy) || (l[1][0] >= cx && l[1][1] < cy && l[0][0] < cx && l[0][1] >= cy)
+//@   requires a[2] <= cx && a[3] <= cy && b[0] >= cx && b[1] >= cy
+//@   use meets_def1(l, a)
+//@   use meets_def1(l, b)
+//@   ensures !(meets(l, a) && meets(l, b))
+
+// C02: which children of a parent pixel does the edge meet? Exactly the occupied ones whose half-open square the
+// closed edge meets; no duplicates. (Children: 0 bottom-left, 1 bottom-right, 2 top-left, 3 top-right.)
+//@ macro half(p) = p.intCentroid[0] - p.intExtent[0]
+//@ macro wfParent(p) = half(p) > 0 && p.intCentroid[1] - p.intExtent[1] == half(p)
+//@     && p.intExtent[2] - p.intExtent[0] == 2 * half(p) && p.intExtent[3] - p.intExtent[1] == 2 * half(p) && extentOK(p.intExtent)
+//@ macro childExt(p, dx, dy) = arr(p.intExtent[0] + dx * half(p), p.intExtent[1] + dy * half(p),
+//@     p.intExtent[0] + dx * half(p) + half(p), p.intExtent[1] + dy * half(p) + half(p))
+//@ macro childOK(qs, p, q, dx, dy) = hasKey(qs, q) ==> qs[q].intExtent == childExt(p, dx, dy)
+//@ macro in4(s, q) = (len(s) > 0 && s[0] == q) || (len(s) > 1 && s[1] == q) || (len(s) > 2 && s[2] == q) || (len(s) > 3 && s[3] == q)
+//@ func findIntersectingQuadrants
+//@   mode real
+//@   prelude geom
+//@   requires lineOK(intLine) && wfParent(parent)
+//@   requires childOK(quadrants, parent, 0, 0, 0) && childOK(quadrants, parent, 1, 1, 0) && childOK(quadrants, parent, 2, 0, 1) && childOK(quadrants, parent, 3, 1, 1)
+//@   use G_in0(intLine, childExt(parent, 0, 0)) && G_in1(intLine, childExt(parent, 0, 0))
+//@   use G_in0(intLine, childExt(parent, 1, 0)) && G_in1(intLine, childExt(parent, 1, 0))
+//@   use G_in0(intLine, childExt(parent, 0, 1)) && G_in1(intLine, childExt(parent, 0, 1))
+//@   use G_in0(intLine, childExt(parent, 1, 1)) && G_in1(intLine, childExt(parent, 1, 1))
+//@   use G_xge(intLine, childExt(parent, 0, 0), parent.intCentroid[0]) && G_yge(intLine, childExt(parent, 0, 0), parent.intCentroid[1])
+//@   use G_xlt(intLine, childExt(parent, 1, 0), parent.intCentroid[0]) && G_yge(intLine, childExt(parent, 1, 0), parent.intCentroid[1])
+//@   use G_xge(intLine, childExt(parent, 0, 1), parent.intCentroid[0]) && G_ylt(intLine, childExt(parent, 0, 1), parent.intCentroid[1])
+//@   use G_xlt(intLine, childExt(parent, 1, 1), parent.intCentroid[0]) && G_ylt(intLine, childExt(parent, 1, 1), parent.intCentroid[1])
+//@   use G_mutexDiag(intLine, childExt(parent, 1, 0), childExt(parent, 0, 1), parent.intCentroid[0], parent.intCentroid[1])
+//@   use G_mutexAnti(intLine, childExt(parent, 0, 0), childExt(parent, 1, 1), parent.intCentroid[0], parent.intCentroid[1])
+//@   ensures[C02] len(result) <= 4
+//@   ensures[C02] in4(result, 0) == (hasKey(quadrants, 0) && meets(intLine, childExt(parent, 0, 0)))
+//@   ensures[C02] in4(result, 1) == (hasKey(quadrants, 1) && meets(intLine, childExt(parent, 1, 0)))
+//@   ensures[C02] in4(result, 2) == (hasKey(quadrants, 2) && meets(intLine, childExt(parent, 0, 1)))
+//@   ensures[C02] in4(result, 3) == (hasKey(quadrants, 3) && meets(intLine, childExt(parent, 1, 1)))
+//@   ensures[C02] forall(i, 0, len(result), 0 <= result[i] && result[i] <= 3 && forall(j, i + 1, len(result), result[i] != result[j]))
+
+// ---------------------------------------------------------------------------------------------
+// C14: IsQuadTree accepts only tile matrix sets in which every matrix is square with square tiles, carries its
+// own key as id and no variable widths, and every matrix doubles its predecessor (consecutive keys).
+//@ macro perMatrix(tm, k) = tm.MatrixHeight == tm.MatrixWidth && tm.TileHeight == tm.TileWidth
+//@     && atoiOK(tm.ID) && atoi(tm.ID) == k && len(tm.VariableMatrixWidths) == 0
+//@ macro pairOK(p, t) = deref(t.PointOfOrigin) == deref(p.PointOfOrigin) && t.CornerOfOrigin == p.CornerOfOrigin
+//@     && t.TileHeight == p.TileHeight && t.MatrixHeight == 2 * p.MatrixHeight
+//@     && 1.99 <= p.CellSize / t.CellSize && p.CellSize / t.CellSize <= 2.01
+// what the JSON decoder guarantees about every tile matrix (validate tags: required, gt=0)
+//@ macro decodedTM(tm) = !isNil(tm.PointOfOrigin) && tm.CellSize > 0 && tm.MatrixHeight <= 4611686018427387904
+//@ func IsQuadTree
+//@   prelude strings
+//@   requires forall(k Int, hasKey(tms.TileMatrices, k) ==> decodedTM(tms.TileMatrices[k]))
+//@   loop tmID as i
+//@     invariant 0 - 1 <= i && i < len(tmIDs)
+//@     invariant forall(j, 0, len(tmIDs), hasKey(tms.TileMatrices, tmIDs[j]))
+//@     invariant forall(j, 0, i + 1, perMatrix(tms.TileMatrices[tmIDs[j]], tmIDs[j]))
+//@     invariant forall(j, 1, i + 1, tmIDs[j] == tmIDs[j - 1] + 1 && pairOK(tms.TileMatrices[tmIDs[j - 1]], tms.TileMatrices[tmIDs[j]]))
+//@     invariant i < 0 ==> isNil(previousTM)
+//@     invariant i >= 0 ==> !isNil(previousTM) && deref(previousTM) == tms.TileMatrices[tmIDs[i]] && previousTMID == tmIDs[i]
+//@     decreases len(tmIDs) - i
+//@   postlet ids = tmIDs
+//@   ensures[C14] result == nil ==> forall(j, 0, len(ids), perMatrix(tms.TileMatrices[ids[j]], ids[j]))
+//@   ensures[C14] result == nil ==> forall(j, 1, len(ids), ids[j] == ids[j - 1] + 1 && pairOK(tms.TileMatrices[ids[j - 1]], tms.TileMatrices[ids[j]]))
+//@   ensures[C14] result == nil ==> forall(k Int, hasKey(tms.TileMatrices, k) ==> perMatrix(tms.TileMatrices[k], k))
+//@   ensures[C14] result == nil ==> forall(k Int, hasKey(tms.TileMatrices, k) && hasKey(tms.TileMatrices, k + 1) ==> pairOK(tms.TileMatrices[k], tms.TileMatrices[k + 1]))
